@@ -84,6 +84,8 @@ def run_config(cfg, keep=None):
         formula = f"y ~ 0 + fmc_probe(`{name}`)"
     else:
         formula = f"y ~ 0 + {name}{'.fn' if dotted == 1 else '.sub.fn' if dotted == 2 else ''}(x)"
+    if cfg.get("pad"):  # the same term as the last one of a long right-hand side
+        formula = formula.replace("y ~ 0 + ", "y ~ 0 + " + " + ".join(f"I(x * {i})" for i in range(2, 2 + cfg["pad"])) + " + ")
     order = [s for s in ("data", "local", "global", "extra") if s in subset]
     vals = {s: MARK[s] for s in order}
     if none_win:  # the first user scope that defines the name binds it to None
@@ -174,6 +176,10 @@ def configs():
                 out.append({"role": "kwarg", "name": name, "k": k, "subset": sub})
                 if k in (0, 2):
                     out.append({"role": "nested", "name": name, "k": k, "subset": sub})
+        for sub in subsets:  # models with a dozen terms and more
+            for pad in (10, 14):
+                out.append({"role": "arg", "name": "wz", "k": k, "subset": sub, "pad": pad})
+                out.append({"role": "callee", "name": "wz", "k": k, "subset": sub, "pad": pad})
         sub3 = [list(c) for n in range(4) for c in itertools.combinations(["local", "global", "extra"], n)]
         for sub in sub3:
             out.append({"role": "callee", "name": "ns", "k": k, "subset": sub, "dotted": 1})
